@@ -29,7 +29,7 @@ META = {
         "soundness half of the property for every store and query; completeness is a statement about a greedy search over "
         "runtime data and is declared not applicable."),
     "trusted_base": ["rustc MIR, driver", "UtxoStore::narrow_refs returns refs matching the pattern; fetch_utxos returns the refs requested"],
-    "not_decided": ["completeness of selection (greedy algorithm over all stores)", "contains_total / contains_some as value-level orders"],
+    "not_decided": ["completeness of selection (greedy algorithm over all stores)", "contains_some as an order (no clause of the property states it)", "predicates written in a shape other than an entry-wise loop of comparisons (reported as assumptions)"],
 }
 
 NARROW = "tx3_resolver::inputs::narrow::"
